@@ -97,7 +97,22 @@ pub fn run_single(text: &str, ty: &Ty, cfg: &Cfg) -> String {
         crate::tyseed::TUPLE_AS_STRUCT.with(|f| f.set(false));
         if ans2 != ans { return format!("TUPLE-STRUCT-DIFFERS-FROM-TUPLE as tuple: {ans} ; as tuple struct: {ans2}"); }
     }
+    // the validating entry points run the same pipeline with the path recorder attached: with a type whose validation
+    // never objects they must answer exactly as the plain entry point does (value or error, kind and location)
+    CUR_TY.with(|t| *t.borrow_mut() = Some(ty.clone()));
+    let valid = match catch(|| serde_saphyr::from_str_with_options_valid::<Dyn>(text, cfg.options())) {
+        Err(msg) => format!("panic {}", hex(&msg)),
+        Ok(Ok(v)) => format!("ok {}", v.0.tokens()),
+        Ok(Err(e)) => err_tok(&e),
+    };
+    if valid != ans { return format!("VALIDATING-ENTRY-DIFFERS plain: {ans} ; from_str_with_options_valid: {valid}"); }
     ans
+}
+
+/// validation that never objects (the recorder is attached all the same)
+impl garde::Validate for Dyn {
+    type Context = ();
+    fn validate_into(&self, _ctx: &(), _parent: &mut dyn FnMut() -> garde::Path, _report: &mut garde::Report) {}
 }
 
 thread_local! {
